@@ -7,43 +7,43 @@ props = [json.loads(l) for l in open(os.path.join(ROOT, 'properties.jsonl'))]
 # id -> (technique, level text, level note, design section, has_thorough)
 CHECKS = {
  'C01': ("bounded-exhaustive lattice / layer-sequence enumeration of the real backward pass against exact dual-number derivatives of a reference model",
-         "Quick: ring of <= 2 deviations of the single-layer lattice, dense layers, every layer sequence of <= 2 tokens (one deviation) over 5 input shapes under 7 objectives, soft-max heads; thorough: the full lattice (1.3e5 configurations incl. every stride/dilation/padding combination, rectangular kernels and planes) and sequences of <= 3 tokens with <= 2 deviations. Weight, bias, kernel and input gradients, through the layers' public backward(), Network::backward and one learn() step; every network is also built a second way (placeholder activations + set_activation); planes from 1x1 to 6x7; a large-value ring and heavy layers (>= 64k multiply-adds); soft-max heads of width 2-5 and soft-max output layers that are (de)convolutions under cross-entropy; max-pool windows over extreme finite values (f32::MIN .. f32::MAX) with an exact routing oracle.",
+         "Quick: ring of <= 2 deviations of the single-layer lattice, dense layers, every layer sequence of <= 2 tokens (one deviation) over 5 input shapes under 7 objectives, soft-max heads; thorough: the full lattice (1.3e5 configurations incl. every stride/dilation/padding combination, rectangular kernels and planes) and sequences of <= 3 tokens with <= 2 deviations. Weight, bias, kernel and input gradients, through the layers' public backward(), Network::backward and one learn() step; every network is also built a second way (placeholder activations + set_activation); planes from 1x1 to 6x7; a large-value ring and heavy layers (>= 64k multiply-adds); soft-max heads of width 2-5 and soft-max output layers that are (de)convolutions under cross-entropy; max-pool windows over extreme finite values (f32::MIN .. f32::MAX) with an exact routing oracle; inputs with exact zeros; the gradient check repeated on the TRAINED network.",
          "Real-valued data is a generic kink-free valuation per configuration (not enumerable); reference forward is bound to the library by C02; tolerance 2e-4 relative to the tensor's largest true derivative.", "4 C01", True),
  'C02': ("exhaustive enumeration of the single-layer configuration lattice and of bounded layer sequences on the real forward pass against a definitional reference, flat-vs-CxHxW differential",
          "The FULL lattice (kernel 1-3 x stride 1-2/3 x padding 0-2 x dilation 1-2 x channels x filters x 16 planes) for convolution, deconvolution and max-pool on pairwise-distinct integer data in both input representations, the deviation ring x 5 activations and x further kinds of data ({-1,0,1} ties/zeros, generic floats, subnormal numbers), a large-value ring (kernels 5/7, strides 3/4, 8 channels, planes to 28x32), all dense n,m <= 4 and wide dense layers, and every layer sequence of <= 3 tokens (a quarter each also on tiny, {-1,0,1}, generic and subnormal data); pre- and post-activation of every layer compared.",
          "Reference operators in refmodel/layers.rs are trusted; data values are fixed valuations per configuration (six kinds); tolerance relative to the scale of the data that flowed in, plus a conditioning-derived allowance.", "4 C02", True),
  'C04': ("exhaustive enumeration of all (N,B,E) up to the bound x networks x optimizers against a reference trainer replaying per-sample library passes",
-         "All 126 (N,B,E) combinations incl. B=1, B not dividing N, B>N, plus groups around/above the internal chunk size 64, pairs of consecutive learn() calls, data sets of identical samples and of equal inputs with different targets, x 4 networks (one-hot dense, MLP, CNN, feedback block) x 4 optimizers x 2 objectives; final weights and per-epoch losses of learn() vs ordered mini-batch gradient-sum descent with one step per group and step number = epoch (bit-exact on every run so far).",
+         "All 126 (N,B,E) combinations incl. B=1, B not dividing N, B>N, plus groups around/above the internal chunk size 64, pairs of consecutive learn() calls, data sets of identical samples and of equal inputs with different targets, batch sizes up to usize::MAX, groups with an exactly zero loss, x 4 networks (one-hot dense, MLP, CNN, feedback block) x 4 optimizers x 2 objectives; final weights and per-epoch losses of learn() vs ordered mini-batch gradient-sum descent with one step per group and step number = epoch (bit-exact on every run so far).",
          "Per-sample gradients and the optimizer step come from the library itself (decided by C01/C03); N <= 6, E <= 3.", "4 C04", False),
  'C08': ("explicit-state exploration of the network builder (layer sequences as states) plus exhaustive sweep of all flat sizes up to the bound",
-         "Every layer sequence of <= 3 tokens (<= 1 deviation; thorough: 2, and depth 4): announced vs formula shapes, produced vs announced shapes in a real forward pass, gradient vs parameter shapes in a real backward pass; every flat size 1..4096 (65536) in front of each spatial layer kind: accepted iff perfect square, and read as 1 x r x r in row-major order.",
+         "Every layer sequence of <= 3 tokens (<= 1 deviation; thorough: 2, and depth 4): announced vs formula shapes, produced vs announced shapes in a real forward pass, gradient vs parameter shapes in a real backward pass; every flat size 1..4096 (65536) in front of each spatial layer kind (<= 1024 also in front of a feedback block starting with one), and sizes r^2+-2 for roots up to 65536 through the layers' constructors: accepted iff perfect square, and read as 1 x r x r in row-major order.",
          "Only configurations whose effective kernel fits the padded input are explored, as the statement quantifies.", "4 C08", True),
  'C09': ("bounded-exhaustive enumeration of architectures x all dropout subsets with bit-exact differential oracles (learn vs validate, network vs dropout-free twin)",
-         "Every layer sequence of <= 3 tokens ending in a dense layer x every subset (size <= 2; thorough: all, depth 4) of droppable layers incl. layers inside feedback blocks x 1-3 epochs x with/without validation data; reported validation metrics, predictions and training flags compared with the dropout-free twin, also after the early-stopping exit, after call sequences validate/learn/learn/learn/validate, with 300 validation samples, and on data the network already fits exactly (training loss exactly 0).",
+         "Every layer sequence of <= 3 tokens ending in a dense layer x every subset (size <= 2; thorough: all, depth 4) of droppable layers incl. layers inside feedback blocks x 1-3 epochs x with/without validation data; reported validation metrics, predictions and training flags compared with the dropout-free twin, also after the early-stopping exit, after call sequences validate/learn/learn/learn/validate, with 300 validation samples, on data the network already fits exactly (training loss exactly 0) and on data that makes training diverge at once.",
          "Dropout rate 0.5 with the library's fixed-seed mask; 3 training samples.", "4 C09", True),
  'C10': ("explicit-state exploration of training histories (sequences of learn() calls) with the weight-tying invariant evaluated in every state",
-         "220 block configurations (layer lists, bias, loops 1-3, 4 couplings, position) x the block's input/output skip flags x 6 optimizers x all action sequences of length <= 2 (thorough 3) over 4 learn() actions (one with exactly zero gradients); a coupled value that overflows while loss and gradients stay finite; in every state all unrolled copies bit-identical and the reported parameter count counts shared parameters once.",
+         "220 block configurations (layer lists, bias, loops 1-3, 4 couplings, position) x the block's input/output skip flags x 6 optimizers x all action sequences of length <= 2 (thorough 3) over 4 learn() actions (one with exactly zero gradients); a coupled value that overflows while loss and gradients stay finite; blocks mixing bias-free and bias-carrying layers; in every state all unrolled copies bit-identical and the reported parameter count counts shared parameters once.",
          "History depth bound; data fixed per configuration.", "4 C10", True),
  'C11': ("exhaustive enumeration of block lists x loops x skip flags x accumulations on the real forward pass against a reference interpreter",
          "12 block settings x 3 activations x loops 1-4 (1-9 for three settings) x 4 skip-flag combinations x 5 accumulations x dense-after on/off x 2 exact valuations + the blank sample, incl. dense -> block of spatial layers and max-pool inside a block; blocks near a fixed point of their repeated map (8-22 repetitions, iterates 1 ulp apart); identity blocks on inputs near +-3e38; a block without skips is bit-equal to the written-out plain network.",
          "Reference interpreter in refmodel/net.rs is trusted; L <= 4 complete, L <= 9 / 22 for slices.", "4 C11", False),
  'C12': ("exhaustive enumeration of data-set sizes around the chunk size x heads x bodies x objectives x tolerances against per-element predict",
-         "12 sizes (0..200, around 64 and 128; 256..1025 for a slice) x 4 heads x 5 bodies (incl. skip and loop connections) x 7 objectives x 4 tolerances: predict_batch element-wise bit-equal to predict in order, predict = last activation, validate = mean loss and accuracy by the three rules, repeated inside pools of 1 and 2 workers; soft-max heads with tied maxima under an interval oracle (the statement leaves the tie-break open).",
+         "12 sizes (0..200, around 64 and 128; 256..1025 for a slice) x 4 heads (+ a one-unit soft-max) x 6 bodies (incl. skip and loop connections, and skips leaving a looped range) x 7 objectives x 5 tolerances (one negative): predict_batch element-wise bit-equal to predict in order, predict = last activation, validate = mean loss and accuracy by the three rules, repeated inside pools of 1 and 2 workers; soft-max heads with tied maxima under an interval oracle (the statement leaves the tie-break open).",
          "Per-sample loss values come from the library's objective (C06 decides them).", "4 C12", False),
  'C13': ("exhaustive enumeration of all validation-loss trajectories over {rise,fall,equal} x tolerances, driving the real learn() black-box",
-         "All 3^(E-1) trajectories for E <= 6 (thorough 8) x tolerances 1-5 are realised exactly by the unmodified learn() (steering by one-hot AE training on a linear unit); history lengths and the stop predicate checked on what learn() returned; every commanded pattern is re-derived from the returned vector; tolerances 6-20 on near-monotone trajectories; epoch budgets up to i32::MAX on strictly rising trajectories (watchdog); runs after an earlier learn() call on the same network; trajectories starting at a loss of exactly 0; a third of the trajectories at loss 2^-20 (steps 2^-27) and a third at loss 2^20 (steps of one ulp); print frequencies varied.",
+         "All 3^(E-1) trajectories for E <= 6 (thorough 8) x tolerances 1-5 are realised exactly by the unmodified learn() (steering by one-hot AE training on a linear unit); history lengths and the stop predicate checked on what learn() returned; every commanded pattern is re-derived from the returned vector; tolerances 6-20 on near-monotone trajectories; epoch budgets up to i32::MAX on strictly rising trajectories (watchdog); runs after an earlier learn() call on the same network; trajectories starting at a loss of exactly 0; the validation accuracy steered to a new best at the stopping epoch; recorded means that repeat while their sum rises; a third of the trajectories at loss 2^-20 (steps 2^-27) and a third at loss 2^20 (steps of one ulp); print frequencies varied.",
          "Stop rule read as the window of the last T recorded losses being strictly increasing.", "4 C13", True),
  'C16': ("exhaustive enumeration of networks x index pairs x accumulations and of all ordered pairs of connect calls, forward vs reference interpreter and backward vs dual-number derivative",
-         "All sequences of depth 2-3 (thorough 4) over 8 count-preserving layer types (incl. a max-pool and a block of spatial layers, as source and as target) from a flat and a spatial input x every a <= b x 5 accumulations; every ordered pair of connect calls (acceptance rules, both connections visible), every first connection followed by a call with reversed indices, three connections on a 5-layer network; Network::backward with additive skips vs the derivative of the reference function.",
+         "All sequences of depth 2-3 (thorough 4) over 10 layer types (incl. a max-pool and a block of spatial layers, as source and as target, and layers that change the arrangement 1x2x2 <-> 4x1x1; index pairs with equal element counts) from a flat and a spatial input x every a <= b x 5 accumulations; every ordered pair of connect calls (acceptance rules, both connections visible), every first connection followed by a call with reversed indices, three connections on a 5-layer network; Network::backward with additive skips vs the derivative of the reference function.",
          "Element count 4; at most three connections.", "4 C16", True),
  'C17': ("exhaustive enumeration of ranges x iterations x accumulations x input skips against a reference interpreter and an unrolled-network differential",
-         "6 base networks x every shape-matching range x k 1-3 (4-9 for two ranges each) x 5 accumulations x input skips x 2 valuations, pairs of disjoint ranges in both registration orders; loops near a fixed point of the repeated map (8-22 iterations, iterates 1 ulp apart, exact arithmetic); overwrite loops bit-equal to the plain unrolled network.",
+         "6 base networks x every shape-matching range x k 1-3 (4-9 for two ranges each) x 5 accumulations x input skips x 2 valuations, pairs of disjoint ranges in both registration orders (one or both with input skips) and of overlapping ranges (two readings); loops near a fixed point of the repeated map (8-22 iterations, iterates 1 ulp apart, exact arithmetic); overwrite loops bit-equal to the plain unrolled network.",
          "k <= 3 complete; k <= 9 / 22 for slices.", "4 C17", False),
  'C03': ("explicit-state exploration of optimizer update histories on the real optimizer (history tree, bit-exact rank/slot differentials, reference recurrences)",
-         "Every gradient sequence over an 11-value alphabet up to the depth bound x every non-decreasing step-number sequence x 43 hyper-parameter settings (32 around the defaults, 11 away from them incl. epsilon 0.125 and 1e-12, momentum 0) x 3 tensor ranks is executed on the real create->validate->update API; each reached parameter is compared with the documented recurrence, across ranks (bit-exact) and across slot interleavings (bit-exact); 2048-step run-length histories for slow numeric drift.",
+         "Every gradient sequence over an 11-value alphabet up to the depth bound x every non-decreasing step-number sequence x 45 hyper-parameter settings (32 around the defaults, 13 away from them incl. epsilon 0.125 and 1e-12, momentum 0, beta1 = 1/2), re-validation differential (validated once / twice / three times) x 3 tensor ranks is executed on the real create->validate->update API; each reached parameter is compared with the documented recurrence, across ranks (bit-exact) and across slot interleavings (bit-exact); 2048-step run-length histories for slow numeric drift.",
          "Trusts the 5 scalar reference recurrences (refmodel/optim.rs) and IEEE f32/f64 of the host; gradients outside the alphabet and depth > bound are not covered except through the run-length histories.", "4 C03", True),
  'C05': ("stateless model checking of schedules: choice-point DFS over a scheduler model of rayon (thread counts x steal patterns x leaf interleavings, deviation-bounded by regions) running the unchanged library, bound to real rayon by result equality and partition inclusion",
-         "The unchanged library is compiled against a model of rayon 1.10's adaptive splitter and work stealing; every schedule with <= 1 (thorough 2) deviating parallel regions per run is executed for pool sizes 1,2,3,4,8 (16,64) on a driver with every layer kind, batch sizes 2/3/5 (17 and 32 with a choice cap), 65/130 (321/641) evaluation inputs, a 96->70->3 dense network, a feedback block with input skips and a network whose skip connections share a source; losses, metrics, final weights and predict_batch outputs must be bit-identical to the canonical run, which itself must reproduce its bits over 96 (1024) freshly built instances, each under its own hash salt: through the salted-hasher hook the iteration orders of the maps inside feedback blocks are an enumerated choice (all 24 orders of a 4-key map, 62 / all 120 of a 5-key map); for the two std maps of Network the instances are a sample of hash seeds, listed with a scan of every HashMap iteration in src/. The model is validated against the real pool: identical results for 5-7 pool sizes in two calling contexts, and every leaf partition observed under real rayon is one the model generates.",
+         "The unchanged library is compiled against a model of rayon 1.10's adaptive splitter and work stealing; every schedule with <= 1 (thorough 2) deviating parallel regions per run is executed for pool sizes 1,2,3,4,8 (16,64) on a driver with every layer kind, batch sizes 2/3/5 (17 and 32 with a choice cap), 65/130 (321/641) evaluation inputs, a 96->70->3 dense network, a feedback block with input skips, a network whose skip connections share a source and a conv(2)->conv(6)->dense network; losses, metrics, final weights and predict_batch outputs must be bit-identical to the canonical run, which itself must reproduce its bits over 96 (1024) freshly built instances, each under its own hash salt: through the salted-hasher hook the iteration orders of the maps inside feedback blocks are an enumerated choice (all 24 orders of a 4-key map, 62 / all 120 of a 5-key map); for the two std maps of Network the instances are a sample of hash seeds, listed with a scan of every HashMap iteration in src/. The model is validated against the real pool: identical results for 5-7 pool sizes in two calling contexts, and every leaf partition observed under real rayon is one the model generates.",
          "Leaf granularity (sound without interior mutability: source scan recorded in the evidence); flat_map inner iterators sequential; memory-ordering effects inside rayon are outside the model.", "4 C05", True),
  'C06': ("exhaustive enumeration of (prediction,target) tuples over boundary-including alphabets against the documented formulas, rank/clamp differentials, dual-number derivative",
          "All tuples of up to 3 (prediction,target) pairs over the per-objective in-domain alphabets (including exact 0 and 1; near-equal values, +-0 and +-1e-8 in tuples of <= 2), both ranks, all clamps incl. one-sided and unbounded: loss and gradient against the documented formulas, clamped = clamp(unclamped) bit-exact, 3-D = vector bit-exact, gradient = derivative of the reference loss for AE/MSE/BCE/KL.",
@@ -52,13 +52,13 @@ CHECKS = {
          "Quick: structured cover of every exponent/sign/leading-mantissa pattern plus threshold neighbourhoods; thorough: every one of the 2^32 bit patterns, forward and backward, vector and CxHxW (bit-identical); soft-max over all vectors of length <= 4 of a 14-value alphabet incl. +-MAX with exact-shift invariance.",
          "Trusts the host libm in f64 as reference; tolerances derived from the f32 transcription of the documented formula.", "4 C07", True),
  'C14': ("exhaustive enumeration of all source/target shape pairs within the bound on the real Tensor API",
-         "All ordered pairs of 3-D shapes with extents <= 4 (plus elongated ones and seven shapes of 1024-3072 elements) and all vector lengths <= 64 against every shape, each with three kinds of contents (0,1,2,..; zeros and subnormals only; special values incl. -0, inf, NaN) compared as bit patterns: sequence preserved, recorded shape = nesting, equal counts accepted, unequal refused (reshape and get_triple), round trip identity.",
+         "All ordered pairs of 3-D shapes with extents <= 4 (plus elongated ones and seven shapes of 1024-3072 elements) and all vector lengths <= 64 against every shape, each with three kinds of contents (0,1,2,..; zeros and subnormals only; special values incl. -0, inf, NaN) compared as bit patterns: sequence preserved, recorded shape = nesting, equal counts accepted, unequal refused (reshape and get_triple; also targets with an extent of 0), round trip identity.",
          "Shapes beyond the bound are not explored.", "4 C14", False),
  'C15': ("exhaustive enumeration of ops x ranks x shapes x all operand pairs over a boundary alphabet, and of all mismatched shape pairs, on the real Tensor API",
-         "Every op on every shape with extents <= 3 of rank 1-4 (and nested lists) with valuations that cover all 169 ordered operand pairs per shape plus operands entirely within 1e-5 of 1 or 0, and means of operands near +-f32::MAX, bit-exact against the single IEEE operation; all 14k ordered pairs of different shapes must be refused; product/dot/transpose, hadamard3d/pad3d, clamp; large tensors (1000, 40x40, 3x3x17x2).",
+         "Every op on every shape with extents <= 3 of rank 1-4 (and nested lists) with valuations that cover all 169 ordered operand pairs per shape plus operands entirely within 1e-5 of 1 or 0, and means of operands near +-f32::MAX, bit-exact against the single IEEE operation; the empty vector against every shape; all 14k ordered pairs of different shapes must be refused; product/dot/transpose, hadamard3d/pad3d, clamp; large tensors (1000, 40x40, 3x3x17x2).",
          "Trusts the host's IEEE-754 f32 arithmetic as the oracle.", "4 C15", False),
  'C18': ("exhaustive state-space sweep: every one of the 2^31-2 LCG states through the real generate/shuffle, plus seed list, call interleavings and Tensor::random shapes",
-         "Every generator state is visited exactly once per interval/length (bijection seed -> first state), so range and shuffle-safety hold for all states, not a sample; bands at both ends of the state range get an interval grid with non-dyadic bounds; degenerate, subnormal and wider-than-f32::MAX intervals on the seed list, the extreme states and a stride cover; shuffle lengths to 65537 and arbitrary contents; 64-bit seeds incl. u64::MAX; purity over all 70 interleavings of 4+4 calls.",
+         "Every generator state is visited exactly once per interval/length (bijection seed -> first state), so range and shuffle-safety hold for all states, not a sample; bands at both ends of the state range get an interval grid with non-dyadic bounds; degenerate, subnormal and wider-than-f32::MAX intervals on the seed list, the extreme states and a stride cover; shuffle lengths to 65537 (2^24+4 from the extreme states) and arbitrary contents; 64-bit seeds incl. u64::MAX; purity over all 70 interleavings of 4+4 calls.",
          "Intervals are a finite menu (complete state space x finite interval set); min <= max assumed as the statement does.", "4 C18", True),
 }
 
